@@ -294,9 +294,9 @@ var EngineC19 = &core.Engine{
 	},
 	Cases: func(tier string) int {
 		if tier == "thorough" {
-			return 200000
+			return 300000
 		}
-		return 6000
+		return 20000
 	},
 	Batch:         func(string) int { return 128 },
 	Run:           run19,
